@@ -52,6 +52,33 @@ func (g *k11GenState) fresh(key int, ack bool) int {
 	return id
 }
 
+// k11GenCompeteUnlock: an unlock that competes with a hold awaiting acknowledgement: by its LockId, through the
+// unlock-first fallback (flag 0x01 with a LockId nobody holds: the key's oldest holder is picked, which is or is
+// not the pending one), with the cancel-wait flag (0x02) aimed at the pending LockId, a queued LockId or nothing.
+func k11GenCompeteUnlock(t *rapid.T, g *k11GenState, key int, pendingId int, waiterIds []int) k11Op {
+	op := k11Op{K: "unlock", Key: key, Id: pendingId, C: rapid.IntRange(0, 2).Draw(t, "cuC")}
+	switch rapid.IntRange(0, 7).Draw(t, "cuKind") {
+	case 0, 1:
+		op.Rc = rapid.IntRange(0, 1).Draw(t, "curc")
+	case 2, 3:
+		op.UF, op.Id = 0x01, g.fresh(key, false)
+	case 4:
+		op.UF, op.Id = 0x03, g.fresh(key, false)
+	case 5:
+		op.UF = 0x02
+	case 6:
+		op.UF = 0x02
+		if len(waiterIds) > 0 {
+			op.Id = waiterIds[rapid.IntRange(0, len(waiterIds)-1).Draw(t, "cuWaiter")]
+		} else {
+			op.Id = g.fresh(key, false)
+		}
+	default:
+		op.UF = 0x01
+	}
+	return op
+}
+
 func k11GenOps(t *rapid.T, g *k11GenState, nkeys, nops int, cluster bool) []k11Op {
 	var ops []k11Op
 	pick := func(l []int, label string) int {
@@ -114,6 +141,14 @@ func k11GenOps(t *rapid.T, g *k11GenState, nkeys, nops int, cluster bool) []k11O
 				op.Id = pick(g.ids[key], "uId")
 			}
 			op.Rc = rapid.SampledFrom([]int{0, 0, 0, 1}).Draw(t, "urc")
+			switch rapid.IntRange(0, 9).Draw(t, "uflag") {
+			case 0:
+				op.UF, op.Id = 0x01, g.fresh(key, false)
+			case 1:
+				op.UF = 0x02
+			case 2:
+				op.UF = 0x01
+			}
 			ops = append(ops, op)
 		case r < 84:
 			ops = append(ops, k11Op{K: "tick", N: rapid.SampledFrom([]int{1, 1, 2, 3, 4, 8}).Draw(t, "secs")})
@@ -172,6 +207,7 @@ func k11GenScenario(t *rapid.T, g *k11GenState, key int) []k11Op {
 		}
 		ops = append(ops, k11Op{K: "unlock", Key: key, Id: blocker})
 	}
+	var waiterIds []int
 	nw := rapid.IntRange(0, 3).Draw(t, "waiters")
 	for i := 0; i < nw; i++ {
 		w := k11Op{K: "lock", Key: key, C: 2, T: rapid.SampledFrom([]int{3, 8, 20}).Draw(t, "wT"), E: rapid.IntRange(3, 20).Draw(t, "wE")}
@@ -181,11 +217,12 @@ func k11GenScenario(t *rapid.T, g *k11GenState, key int) []k11Op {
 		if rapid.IntRange(0, 2).Draw(t, "wHasV") == 0 {
 			w.V = k11GenVal(t)
 		}
+		waiterIds = append(waiterIds, w.Id)
 		ops = append(ops, w)
 	}
 	for i := rapid.IntRange(0, 2).Draw(t, "competing"); i > 0; i-- {
 		if rapid.Bool().Draw(t, "competeUnlock") {
-			ops = append(ops, k11Op{K: "unlock", Key: key, Id: ack.Id, Rc: rapid.IntRange(0, 1).Draw(t, "curc")})
+			ops = append(ops, k11GenCompeteUnlock(t, g, key, ack.Id, waiterIds))
 		} else {
 			q := k11Op{K: "lock", Key: key, Id: ack.Id, Ack: rapid.Bool().Draw(t, "cAck"), T: rapid.SampledFrom([]int{0, 4}).Draw(t, "cT"), E: 9, Rc: rapid.IntRange(0, 1).Draw(t, "crc")}
 			if rapid.IntRange(0, 3).Draw(t, "cHasV") == 0 {
@@ -310,6 +347,9 @@ func k11Classes(in k11Info) []string {
 	add(in.ackTimedOut > 0, "ack wait timed out")
 	add(in.ackWaitingLock > 0, "LOCK_ACK_WAITING to a lock request")
 	add(in.ackWaitingUnlock > 0, "LOCK_ACK_WAITING to an unlock request")
+	add(in.unlockFirstPending > 0, "unlock-first (foreign LockId) fell back to a hold awaiting acknowledgement")
+	add(in.unlockFirst > 0, "unlock-first (foreign LockId) resolved to the key's oldest holder")
+	add(in.cancelledWaiters > 0, "queued request cancelled by a cancel-wait unlock")
 	add(in.failedWithValue > 0, "failed ack after a value operation")
 	add(in.failedWithValueAndWaiter > 0, "failed ack after a value operation with a waiter queued behind")
 	add(in.valueRestoreChecked > 0, "value restore checked on the error reply")
@@ -376,7 +416,7 @@ func TestC11_SingleNode(t *testing.T) {
 		c := k11GenSingle(t)
 		k11Exclusions(c, st)
 		out := k11RunSingle(c)
-		if out.inconclusive != "" {
+		if out.inconclusive != "" && len(out.viols) == 0 {
 			k11Inconclusive(out.inconclusive)
 		}
 		for i := 0; i < out.info.knownLateReply; i++ {
@@ -433,8 +473,11 @@ func TestC11_Replay(t *testing.T) {
 			} else {
 				out = k11RunSingleOpts(&c, true)
 			}
-			if out.inconclusive != "" {
-				fmt.Printf("VERIF-NOTE replay %s inconclusive: %s\n", f, out.inconclusive)
+			if out.inconclusive != "" && len(out.viols) == 0 {
+				if os.Getenv("VERIF_K11_TRACE") != "" {
+					fmt.Printf("---- inconclusive run of %s\n%s\n%s\n----\n", f, out.inconclusive, out.history)
+				}
+				fmt.Printf("VERIF-NOTE replay %s inconclusive: %s\n", f, strings.SplitN(out.inconclusive, "\n", 2)[0])
 				continue
 			}
 			rerr = out.err()
@@ -516,6 +559,7 @@ func k11GenCluster(t *rapid.T) *k11Case {
 		if fromQueue {
 			c.Ops = append(c.Ops, k11Op{K: "unlock", Key: key, Id: blocker})
 		}
+		var waiterIds []int
 		for i := rapid.IntRange(0, 2).Draw(t, "waiters"); i > 0; i-- {
 			w := k11Op{K: "lock", Key: key, C: 2, T: rapid.SampledFrom([]int{5, 12}).Draw(t, "wT"), E: rapid.IntRange(30, 60).Draw(t, "wE")}
 			w.Ack = rapid.IntRange(0, 2).Draw(t, "wAck") == 0
@@ -524,11 +568,12 @@ func k11GenCluster(t *rapid.T) *k11Case {
 			if rapid.IntRange(0, 2).Draw(t, "wHasV") == 0 {
 				w.V = k11GenVal(t)
 			}
+			waiterIds = append(waiterIds, w.Id)
 			c.Ops = append(c.Ops, w)
 		}
 		for i := rapid.IntRange(0, 2).Draw(t, "competing"); i > 0; i-- {
 			if rapid.Bool().Draw(t, "competeUnlock") {
-				c.Ops = append(c.Ops, k11Op{K: "unlock", Key: key, Id: ack.Id})
+				c.Ops = append(c.Ops, k11GenCompeteUnlock(t, g, key, ack.Id, waiterIds))
 			} else {
 				c.Ops = append(c.Ops, k11Op{K: "lock", Key: key, Id: ack.Id, Ack: rapid.Bool().Draw(t, "cAck"), T: 0, E: 30})
 			}
@@ -573,7 +618,9 @@ func TestC11_Cluster(t *testing.T) {
 		c := k11GenCluster(t)
 		k11Exclusions(c, st)
 		out := k11RunCluster(c, false)
-		if out.inconclusive != "" {
+		if out.inconclusive != "" && len(out.viols) == 0 {
+			// (a violation observed before a wait ran into its watchdog stays an observation: e.g. a requester that is
+			// never answered makes the next wait expire)
 			k11Inconclusive(out.inconclusive + "\n" + out.history)
 		}
 		for i := 0; i < out.info.knownLateReply; i++ {
@@ -600,7 +647,7 @@ func TestC11_Cluster(t *testing.T) {
 			key := k11FirstKey(&out)
 			for i := 0; i < 3; i++ {
 				again := k11RunCluster(c, false)
-				if again.inconclusive == "" && k11FirstKey(&again) == key {
+				if k11FirstKey(&again) == key {
 					vFail(t, "TestC11_Cluster", key, c, "(reproduced on re-execution %d)\n%v", i+1, err)
 				}
 			}
